@@ -582,6 +582,19 @@ void exec_plan(const std::string &text, bool verbose) {
         // (crf-listener in talker mode runs a periodic 125 us transmit timer and is legitimately busy at any instant)
         if (lt->state != sim::Task::BLOCKED && p.scen != "crfT")
             violation("probe-lost:not-idle", strf("listener is not waiting for input at the end of the run (state %d)", (int)lt->state));
+        // a listener blocked on descriptors that can never become ready again (e.g. read() of a disarmed timerfd) is stuck for good
+        if (lt->state == sim::Task::BLOCKED && ln.waiting && !ln.wait_fds.empty()) {
+            bool can_wake = ln.wake_time != 0;
+            for (int wfd : ln.wait_fds) {
+                FdEnt *e = w.fd(wfd);
+                if (wfd < 0 || !e) { can_wake = true; continue; }
+                if (e->kind == FdEnt::TIMER) { if (e->armed) can_wake = true; }
+                else can_wake = true;  // sockets can always receive
+            }
+            if (!can_wake)
+                violation("probe-lost:stuck", strf("listener is blocked for ever: it waits only for a timer that is not armed (%zu descriptor(s)); %llu datagrams received",
+                                                   ln.wait_fds.size(), (unsigned long long)rs.recv_total));
+        }
         // (its ETH_P_ALL socket also taps its own 8 kHz transmissions, so its queue is never reliably empty either)
         for (auto &e : w.fds)
             if (e.node == rs.listener && (e.kind == FdEnt::PACKET || e.kind == FdEnt::UDP) && !e.rxq.empty() && p.scen != "crfT")
